@@ -1,5 +1,6 @@
 from __future__ import annotations
 
+import re
 from enum import Enum
 from typing import TYPE_CHECKING
 
@@ -95,6 +96,10 @@ class ReceivedSoapMessage:
 
 
 # the following classes are named exactly like the types in soap_envelope.xsd schema, which looks weird sometimes.
+# everything outside the Char production of XML 1.0
+_XML_ILLEGAL_CHARACTERS = re.compile('[^\x09\x0a\x0d\x20-\ud7ff\ue000-\ufffd\U00010000-\U0010ffff]')
+
+
 class faultcodeEnum(Enum):  # noqa: N801
     """Fault codes."""
 
@@ -154,7 +159,9 @@ class Fault(MessageType):
         """Add reason text to list."""
         txt = reasontext()
         txt.lang = lang
-        txt.text = text
+        # The text often quotes data of the request. Characters that are not allowed in xml (control characters,
+        # surrogates) would make it impossible to serialize the fault.
+        txt.text = _XML_ILLEGAL_CHARACTERS.sub('?', text)
         self.Reason.Text.append(txt)
 
     def set_sub_code(self, sub_code: etree.QName):
